@@ -516,4 +516,10 @@ func runC17(cw *caseWriter, tier string, seed uint64) {
 		}(j)
 	}
 	wg.Wait()
+	// leadership transfers: round trips and a target that acknowledges TimeoutNow and is cut off (family 16)
+	if tier == "quick" {
+		runScenarios(cw, 16, seed*100000, 8, 4)
+	} else {
+		runScenarios(cw, 16, seed*100000, 150, 4)
+	}
 }
